@@ -2385,6 +2385,34 @@ func genGlue() string {
 				return true
 			})
 		}
+		// every write into the REQUEST's variable table from the fileserver package (state that
+		// outlives the handler on the same request)
+		var writes []string
+		for _, rel := range []string{"staticfiles.go", "browse.go", "browsetplcontext.go", "matcher.go", "caddyfile.go", "command.go"} {
+			_, vf := parseFile("modules/caddyhttp/fileserver/" + rel)
+			if vf == nil {
+				continue
+			}
+			for _, d := range vf.Decls {
+				fd, ok := d.(*ast.FuncDecl)
+				if !ok || fd.Body == nil {
+					continue
+				}
+				ast.Inspect(fd.Body, func(x ast.Node) bool {
+					ce, ok := x.(*ast.CallExpr)
+					if !ok {
+						return true
+					}
+					if exprText(ce.Fun) == "caddyhttp.SetVar" && len(ce.Args) >= 2 {
+						writes = append(writes, "("+leanStr(rel)+", "+leanStr(fd.Name.Name)+", "+leanStr(exprText(ce.Args[1]))+")")
+					}
+					return true
+				})
+			}
+		}
+		sb.WriteString("\n/-- modules/caddyhttp/fileserver: every `caddyhttp.SetVar(ctx, key, …)` (a write into the request's variable\n    table, shared by all handlers of the request): (file, function, key) -/\n")
+		sb.WriteString("def fileserverVarWrites : List (String × String × String) := [" + strings.Join(writes, ", ") + "]\n")
+
 		sb.WriteString("\n/-- FileServer.ServeHTTP: every call of fileHidden / fs.Stat / openFile / serveBrowse / getEtagFromFile /\n    notFound / redirect / http.ServeContent in source order, with the file-name argument -/\n")
 		sb.WriteString("def serveHTTPCalls : List (String × String) := [" + strings.Join(calls, ", ") + "]\n")
 	}
